@@ -1,2 +1,17 @@
-/- C18 — tree-level invariance under foreign insertions (theorem to be added) -/
-import E57.Model.MetaRead
+/-
+C18 — Unknown extension content never alters standard content.
+
+Proved in E57/Proofs/Foreign.lean on the tree-level reader model (E57/Model/Xml.lean, MetaRead.lean):
+ * `C18_foreign_invisible`      for documents whose roots are related by any number of insertions of
+       foreign-namespace elements (whole subtree foreign, any local names, any position except directly
+       inside a `prototype` and never directly in front of a leaf's text) and foreign attributes:
+       root metadata, all point clouds and all images read identically — for every float-parse table
+ * `C18_foreign_invisible_ext`  … and the extension list, when the namespace declarations agree
+ * `Reader_open_foreign`, `points_and_blobs_unchanged`   the opened reader is equal, hence points and blobs
+ * `recordNameOf_foreign`, `prototype_insert_foreign_record`   extension records inside a prototype are
+       reported as Unknown{prefix, local name} whatever their local name and leave the other records unchanged
+ * delimiting witnesses: `textOf_shadowed_by_leading_element` (an element inserted in front of a leaf's
+       text hides the text — roxmltree's `text()`), `nonforeign_shadows` (a non-foreign look-alike does shadow)
+The XML text → tree step is roxmltree's (external); the `foreign` suite performs the insertions on real files.
+-/
+import E57.Proofs.Foreign
